@@ -29,7 +29,7 @@ var vGateUsers = []string{"alice", "root", "auto", "bob", "svc", "carol", "admin
 func newGateWorld(webui []string) *vGateWorld {
 	w := newWorld(vWorldOpts{CertCfg: []string{"password", "U2F", "IPCertificate"}, WebUICfg: webui, AdminUsers: []string{"root", "admin2"}, CLITokens: true})
 	w.st.Config.Base.AutomationAdmins = []string{"auto"}
-	w.st.Config.Base.AutomationUsers = []string{"svc"}
+	w.st.Config.Base.AutomationUsers = []string{"svc", "svc2"}
 	w.st.Config.Base.EnableLocalTOTP = true
 	w.st.Config.DenyTrustData.KeyDenyFPsshSha256 = vDenyList()
 	w.st.Config.OpenIDConnectIDP.Client = []OpenIDConnectClientConfig{
@@ -37,6 +37,8 @@ func newGateWorld(webui []string) *vGateWorld {
 	for _, u := range []string{"root", "auto", "svc"} {
 		w.pw.pw[u] = "pw-" + u
 	}
+	// the backend is case-sensitive and also knows OTHER accounts whose names differ from "alice" / "root" in case only
+	w.pw.pw["Alice"], w.pw.pw["Root"] = "pw-of-capital-Alice", "pw-of-capital-Root"
 	g := &vGateWorld{w: w, tokens: map[string]*vU2FToken{}, base: map[string]*userProfile{}}
 	g.vip = w.attachVIP()
 	w.rawMux = verifServiceMux(w.st)
@@ -151,9 +153,14 @@ func (g *vGateWorld) applyGateCred(q *vReq, cred map[string]interface{}) {
 			q.Cookies[authCookieName] = w.badCookie(variant, user, lvl)
 		}
 	case "basic":
-		if variant == "ok" {
+		switch variant {
+		case "ok":
 			q.Basic = []string{user, "pw-" + user}
-		} else {
+		case "typed_other":
+			// the capitalised spelling with THAT account's password: normalised, it is `user` with a wrong password
+			cap := strings.ToUpper(user[:1]) + user[1:]
+			q.Basic = []string{cap, "pw-of-capital-" + cap}
+		default:
 			q.Basic = []string{user, "nope"}
 		}
 	default:
@@ -267,6 +274,9 @@ func (g *vGateWorld) probe(c map[string]interface{}, idx int) map[string]interfa
 	case "rolerefresh":
 		q.Path = refreshRoleRequestingCertPath
 		form.Set("pubkey", vB64u(vKeyByID("p256").der))
+		// whatever else the client sends (the issuing endpoint's identity parameter, naming another automation user):
+		// a refresh renews what was presented
+		form.Set("identity", "svc2")
 	default:
 		panic("op " + op)
 	}
@@ -310,8 +320,13 @@ func (g *vGateWorld) probe(c map[string]interface{}, idx int) map[string]interfa
 	if g.txState() != txBefore {
 		effects["tx2fa"] = true
 	}
+	signedSubject := "none"
 	if info := w.parseIssued(r.Body); info.Kind != "none" && info.SignedByUs {
 		effects["signed"] = true
+		signedSubject = info.CN
+		if info.Kind == "ssh" && len(info.Principals) > 0 {
+			signedSubject = info.Principals[0]
+		}
 	}
 	if op == "rolecert_human" || op == "rolecert_auto" {
 		// the same request once more with a user directory that is configured but does not answer: whether the
@@ -355,7 +370,7 @@ func (g *vGateWorld) probe(c map[string]interface{}, idx int) map[string]interfa
 	if id == "" || id == "-" {
 		id = "none"
 	}
-	return map[string]interface{}{"effects": el, "identity": id, "panic": r.Panic != "", "class": r.Class(), "status": r.Status, "xvar": xvar, "dirnote": dirNote, "cookieUser": cookieUser}
+	return map[string]interface{}{"effects": el, "identity": id, "panic": r.Panic != "", "class": r.Class(), "status": r.Status, "xvar": xvar, "dirnote": dirNote, "cookieUser": cookieUser, "signedSubject": signedSubject}
 }
 
 // the ways a request can come from another site (C06: all of them must be refused state changes)
